@@ -52,7 +52,7 @@ def stmt_sig(s):
 def run_case(ctx, case, c):
     from opensquirrel.circuit import Circuit
 
-    ctx.seen(case, len(case["specs"]) > 0)
+    ctx.seen(tc.seen_key(case), len(case["specs"]) > 0)
     text = str(c)
     has_anon = any(oracles.is_gate(s) and s.arguments is None for s in c.ir.statements)
     # correspondence with the writer model
@@ -184,9 +184,10 @@ def run(ctx):
         nq, nb, specs = tc.printable_circuit(rng, anonymous=anon)
         pre = rng.choice(tc.PRE_PASSES) if not anon and nq <= 8 else []
         c = gen.build_circuit(nq, nb, specs)
-        if not tc.apply_pre(rng, c, pre):
+        applied = []
+        if not tc.apply_pre(rng, c, pre, applied):
             continue
-        cases.append({"nq": nq, "nb": nb, "specs": specs, "pre": pre})
+        cases.append({"nq": nq, "nb": nb, "specs": specs, "pre": pre, "pre_applied": applied})
         circuits.append(c)
     # single-float sweep: every rendering class
     vals = [0.0, -0.0, 1e-5, -1e-5, 1e-4, 9.9999999e-5, 1e7, 9999999.5, 12345678.0, 1e8, 1e-12, 999.99999, 1e3, 1.0000000e-7]
@@ -209,12 +210,15 @@ def run(ctx):
 
 
 def replay(ctx, payload):
-    case = payload.get("case") or (payload.get("first_disagreement") or {}).get("case")
-    c = gen.build_circuit(case["nq"], case["nb"], case["specs"])
-    import random
+    from harness import framework
 
-    tc.apply_pre(random.Random(0), c, case.get("pre", []))
+    suite, case = framework.replay_target(payload)
+    if case is None:
+        return framework.replay_nothing(payload)
+    c = gen.build_circuit(case["nq"], case["nb"], case["specs"])
+    if not tc.replay_pre(c, case):
+        return {"fails": False, "note": "an earlier pass raised: the run skips such circuits (C01's concern)"}
     case["_mres"] = model.call_many([["write3", c.qubit_register_size, c.bit_register_size, ser.ser_stmts(c.ir.statements)]])
     case["_read"] = model.call_many([["read3", str(c)]])[0]
     run_case(ctx, case, c)
-    return {"text": str(c), "oracle_failures": ctx.oracle_failures, "fails": bool(ctx.oracle_failures)}
+    return framework.replay_result(ctx, text=str(c))
